@@ -2,6 +2,7 @@ package llvc
 
 import (
 	"fmt"
+	"math/big"
 	"os"
 	"path/filepath"
 	"strconv"
@@ -20,12 +21,14 @@ import (
 //
 //   file    := form*
 //   form    := (define NAME expr) | (scope expr) | (verdict expr) | (case NAME expr)
-//            | (contract NAME expr)            ; extra named obligations
+//            | (contract NAME expr)            ; extra named obligations (bit-vector reading, about the program)
+//            | (math NAME expr)                ; lemma about the definitions in the integer reading (see vsEnv)
 //   expr    := NAME | literal | (op expr*) | (let ((NAME expr)*) expr) | (if c a b)
 //   literal := #xHH.. | #bBB.. | (bv VALUE WIDTH) | true | false
 //   frame   := len                                   ; initial length, 64 bit
 //            | (pkt OFF) | (pkt-be N OFF)            ; byte / N bytes big-endian at OFF (OFF: integer or 64-bit expr)
 //   ctx     := (ctx-le N OFF)                        ; N bytes little-endian of the context struct at entry
+//   free    := (any W)                               ; an arbitrary W-bit value (fresh per occurrence)
 //   maps    := (map-has MAP KEY)                     ; entry present at program entry
 //            | (map-byte MAP KEY OFF) | (map-be N MAP KEY OFF) | (map-le N MAP KEY OFF)
 //            | (key-struct e1 ... en)                ; key from fields in memory order (each a little-endian value)
@@ -37,7 +40,8 @@ import (
 
 type vsVal struct {
 	t smt.Term
-	w int // 0 = Bool
+	w int    // 0 = Bool
+	i string // the same value over mathematical integers (Int / Bool term); see mathematical mode below
 }
 
 type sx struct {
@@ -106,6 +110,13 @@ type FuncSpec struct {
 	Contracts []NamedTerm
 	Cases     []NamedTerm // optional case split of the verdict obligation (each: scope and case => ret == verdict)
 	Defines   []NamedTerm // in file order (for models)
+	Math      []MathLemma // (math NAME expr): lemmas over mathematical integers about the definitions of this file
+}
+
+// MathLemma is one obligation over Int: the SMT-LIB text is unsat iff the lemma holds.
+type MathLemma struct {
+	Name  string
+	Query string
 }
 
 type NamedTerm struct {
@@ -119,6 +130,83 @@ type vsEnv struct {
 	vars map[string]vsVal
 	file string
 	hook *hookCtx
+	// mathematical mode: every value also has a term over Int in which
+	// bvadd/bvmul/bvsub/bvudiv/bvurem are +, *, -, div, mod; each such
+	// operation records the side condition under which the two readings
+	// agree (no wrap / no borrow / divisor not 0), guarded by the enclosing
+	// (if ..) conditions.  Anything else (frame bytes, map bytes, call
+	// observations, bit operations) is an unconstrained integer of its width.
+	leafOf map[string]string // bit-vector term -> Int constant
+	leaves []mathLeaf
+	guard  []string
+	sides  []mathSide
+}
+
+type mathLeaf struct {
+	name string
+	w    int
+	bv   string
+}
+
+type mathSide struct {
+	guard string
+	cond  string
+	what  string
+}
+
+func pow2(w int) string {
+	return new(big.Int).Lsh(big.NewInt(1), uint(w)).String()
+}
+
+func (v *vsEnv) curGuard() string {
+	if len(v.guard) == 0 {
+		return "true"
+	}
+	return "(and " + strings.Join(v.guard, " ") + ")"
+}
+
+func (v *vsEnv) side(cond, what string) {
+	v.sides = append(v.sides, mathSide{v.curGuard(), cond, what})
+}
+
+// leafInt returns the Int constant standing for an opaque bit-vector / Bool term.
+func (v *vsEnv) leafInt(r vsVal) string {
+	if r.t.IsTrue() {
+		return "true"
+	}
+	if r.t.IsFalse() {
+		return "false"
+	}
+	if c, ok := bvConst(r.t); ok && r.w > 0 && r.w <= 64 {
+		return strconv.FormatUint(c&maskOf(r.w), 10)
+	}
+	if n, ok := v.leafOf[r.t.S]; ok {
+		return n
+	}
+	n := fmt.Sprintf("in%d", len(v.leaves))
+	v.leafOf[r.t.S] = n
+	v.leaves = append(v.leaves, mathLeaf{n, r.w, r.t.S})
+	return n
+}
+
+func mkv(t smt.Term, w int, i ...string) vsVal {
+	r := vsVal{t: t, w: w}
+	if len(i) > 0 {
+		r.i = i[0]
+	}
+	return r
+}
+
+// eval evaluates an expression in both readings.
+func (v *vsEnv) eval(x *sx) (vsVal, error) {
+	r, err := v.evalBV(x)
+	if err != nil {
+		return r, err
+	}
+	if r.i == "" {
+		r.i = v.leafInt(r)
+	}
+	return r, nil
 }
 
 // hookCtx is what a specification may observe besides the inputs.
@@ -203,20 +291,20 @@ func (v *vsEnv) mapKey(mi *MapInfo, x *sx) (smt.Term, error) {
 }
 
 func (v *vsEnv) bytesBE(parts []smt.Term) vsVal {
-	return vsVal{v.e.tm.concat(parts), 8 * len(parts)}
+	return mkv(v.e.tm.concat(parts), 8*len(parts))
 }
 
-func (v *vsEnv) eval(x *sx) (vsVal, error) {
+func (v *vsEnv) evalBV(x *sx) (vsVal, error) {
 	tm := v.e.tm
 	if !x.isL {
 		a := x.atom
 		switch {
 		case a == "true":
-			return vsVal{smt.True, 0}, nil
+			return mkv(smt.True, 0), nil
 		case a == "false":
-			return vsVal{smt.False, 0}, nil
+			return mkv(smt.False, 0), nil
 		case a == "len":
-			return vsVal{v.e.pktLen0, 64}, nil
+			return mkv(v.e.pktLen0, 64), nil
 		case strings.HasPrefix(a, "#x"):
 			w := 4 * (len(a) - 2)
 			if w == 0 || w > 64 {
@@ -226,14 +314,14 @@ func (v *vsEnv) eval(x *sx) (vsVal, error) {
 			if err != nil {
 				return vsVal{}, v.errf(x, "bad literal %s", a)
 			}
-			return vsVal{lit(n, w), w}, nil
+			return mkv(lit(n, w), w), nil
 		case strings.HasPrefix(a, "#b"):
 			w := len(a) - 2
 			n, err := strconv.ParseUint(a[2:], 2, 64)
 			if err != nil || w == 0 {
 				return vsVal{}, v.errf(x, "bad literal %s", a)
 			}
-			return vsVal{lit(n, w), w}, nil
+			return mkv(lit(n, w), w), nil
 		}
 		if val, ok := v.vars[a]; ok {
 			return val, nil
@@ -278,7 +366,7 @@ func (v *vsEnv) eval(x *sx) (vsVal, error) {
 		if w < 1 || w > 64 {
 			return vsVal{}, v.errf(x, "width 1..64")
 		}
-		return vsVal{lit(uint64(n), int(w)), int(w)}, nil
+		return mkv(lit(uint64(n), int(w)), int(w)), nil
 	case "let":
 		if err := need(2); err != nil {
 			return vsVal{}, err
@@ -314,14 +402,26 @@ func (v *vsEnv) eval(x *sx) (vsVal, error) {
 		if err := need(3); err != nil {
 			return vsVal{}, err
 		}
-		rs, err := evalAll()
+		c, err := v.eval(args[0])
 		if err != nil {
 			return vsVal{}, err
 		}
-		if rs[0].w != 0 || rs[1].w != rs[2].w {
+		v.guard = append(v.guard, c.i)
+		a, err := v.eval(args[1])
+		v.guard = v.guard[:len(v.guard)-1]
+		if err != nil {
+			return vsVal{}, err
+		}
+		v.guard = append(v.guard, "(not "+c.i+")")
+		b, err := v.eval(args[2])
+		v.guard = v.guard[:len(v.guard)-1]
+		if err != nil {
+			return vsVal{}, err
+		}
+		if c.w != 0 || a.w != b.w {
 			return vsVal{}, v.errf(x, "if: Bool condition and equally typed branches expected")
 		}
-		return vsVal{smt.Ite(rs[0].t, rs[1].t, rs[2].t), rs[1].w}, nil
+		return mkv(smt.Ite(c.t, a.t, b.t), a.w, "(ite "+c.i+" "+a.i+" "+b.i+")"), nil
 	case "pkt":
 		if err := need(1); err != nil {
 			return vsVal{}, err
@@ -330,7 +430,7 @@ func (v *vsEnv) eval(x *sx) (vsVal, error) {
 		if err != nil {
 			return vsVal{}, err
 		}
-		return vsVal{smt.Select(v.e.res.pkt0, o), 8}, nil
+		return mkv(smt.Select(v.e.res.pkt0, o), 8), nil
 	case "pkt-be":
 		if err := need(2); err != nil {
 			return vsVal{}, err
@@ -378,7 +478,7 @@ func (v *vsEnv) eval(x *sx) (vsVal, error) {
 			return vsVal{}, err
 		}
 		pres, _ := v.mapFuns(mi)
-		return vsVal{smt.App(smt.Bool, pres, k), 0}, nil
+		return mkv(smt.App(smt.Bool, pres, k), 0), nil
 	case "map-byte", "map-be", "map-le":
 		idx := 0
 		n := int64(1)
@@ -435,7 +535,7 @@ func (v *vsEnv) eval(x *sx) (vsVal, error) {
 			parts = append(parts, rs[i].t)
 			w += rs[i].w
 		}
-		return vsVal{tm.concat(parts), w}, nil
+		return mkv(tm.concat(parts), w), nil
 	case "concat":
 		rs, err := evalAll()
 		if err != nil {
@@ -450,7 +550,7 @@ func (v *vsEnv) eval(x *sx) (vsVal, error) {
 			parts = append(parts, r.t)
 			w += r.w
 		}
-		return vsVal{tm.concat(parts), w}, nil
+		return mkv(tm.concat(parts), w), nil
 	case "extract":
 		if err := need(3); err != nil {
 			return vsVal{}, err
@@ -470,7 +570,7 @@ func (v *vsEnv) eval(x *sx) (vsVal, error) {
 		if lo < 0 || hi < lo || int(hi) >= r.w {
 			return vsVal{}, v.errf(x, "extract range")
 		}
-		return vsVal{tm.extract(r.t, int(hi), int(lo)), int(hi - lo + 1)}, nil
+		return mkv(tm.extract(r.t, int(hi), int(lo)), int(hi-lo+1)), nil
 	case "zext":
 		if err := need(2); err != nil {
 			return vsVal{}, err
@@ -486,7 +586,7 @@ func (v *vsEnv) eval(x *sx) (vsVal, error) {
 		if r.w == 0 || int(w) < r.w {
 			return vsVal{}, v.errf(x, "zext to a smaller width")
 		}
-		return vsVal{tm.zext(r.t, r.w, int(w)), int(w)}, nil
+		return mkv(tm.zext(r.t, r.w, int(w)), int(w), r.i), nil
 	case "out", "out-be":
 		if v.hook == nil || v.hook.outArr.S == "" {
 			return vsVal{}, v.errf(x, "%s is only available in exit specifications", op)
@@ -563,7 +663,7 @@ func (v *vsEnv) eval(x *sx) (vsVal, error) {
 		if err != nil {
 			return vsVal{}, v.errf(x, "%v", err)
 		}
-		return vsVal{v.e.bitsOf(val), int(8 * n)}, nil
+		return mkv(v.e.bitsOf(val), int(8*n)), nil
 	case "helper-ret":
 		if v.hook == nil {
 			return vsVal{}, v.errf(x, "helper-ret is only available in call specifications")
@@ -579,12 +679,25 @@ func (v *vsEnv) eval(x *sx) (vsVal, error) {
 		for _, c := range v.hook.calls {
 			if c.kind == args[0].atom && c.ret.S != "" {
 				if cnt == k {
-					return vsVal{c.ret, widthOf(c.ret)}, nil
+					return mkv(c.ret, widthOf(c.ret)), nil
 				}
 				cnt++
 			}
 		}
 		return vsVal{}, v.errf(x, "no call #%d of helper %s inside the call", k, args[0].atom)
+	case "any":
+		// (any W): an arbitrary W-bit value (a fresh input of the specification)
+		if err := need(1); err != nil {
+			return vsVal{}, err
+		}
+		w, err := v.intLit(args[0])
+		if err != nil {
+			return vsVal{}, err
+		}
+		if w < 1 || w > 64 {
+			return vsVal{}, v.errf(x, "width 1..64")
+		}
+		return mkv(v.e.fresh("spec_any", int(w)).T, int(w)), nil
 	case "bswap":
 		if err := need(1); err != nil {
 			return vsVal{}, err
@@ -600,7 +713,7 @@ func (v *vsEnv) eval(x *sx) (vsVal, error) {
 		for i := 0; i < r.w/8; i++ {
 			parts = append(parts, tm.extract(r.t, 8*i+7, 8*i))
 		}
-		return vsVal{tm.concat(parts), r.w}, nil
+		return mkv(tm.concat(parts), r.w), nil
 	}
 	rs, err := evalAll()
 	if err != nil {
@@ -632,25 +745,35 @@ func (v *vsEnv) eval(x *sx) (vsVal, error) {
 		}
 		return ts
 	}
+	ints := func() string {
+		var is []string
+		for _, r := range rs {
+			is = append(is, r.i)
+		}
+		return strings.Join(is, " ")
+	}
 	switch op {
 	case "and", "or":
 		if !allBool() {
 			return vsVal{}, v.errf(x, "%s of non-Bool", op)
 		}
-		if op == "and" {
-			return vsVal{smt.And(terms()...), 0}, nil
+		if len(rs) == 0 {
+			return mkv(smt.BoolLit(op == "and"), 0), nil
 		}
-		return vsVal{smt.Or(terms()...), 0}, nil
+		if op == "and" {
+			return mkv(smt.And(terms()...), 0, "(and "+ints()+" true)"), nil
+		}
+		return mkv(smt.Or(terms()...), 0, "(or "+ints()+" false)"), nil
 	case "not":
 		if len(rs) != 1 || !allBool() {
 			return vsVal{}, v.errf(x, "not takes one Bool")
 		}
-		return vsVal{smt.Not(rs[0].t), 0}, nil
+		return mkv(smt.Not(rs[0].t), 0, "(not "+rs[0].i+")"), nil
 	case "=>":
 		if len(rs) != 2 || !allBool() {
 			return vsVal{}, v.errf(x, "=> takes two Bools")
 		}
-		return vsVal{smt.Implies(rs[0].t, rs[1].t), 0}, nil
+		return mkv(smt.Implies(rs[0].t, rs[1].t), 0, "(=> "+ints()+")"), nil
 	case "=", "distinct":
 		if len(rs) != 2 || rs[0].w != rs[1].w {
 			return vsVal{}, v.errf(x, "%s takes two equally typed arguments (widths %v)", op, widths(rs))
@@ -661,18 +784,40 @@ func (v *vsEnv) eval(x *sx) (vsVal, error) {
 		} else {
 			t = tm.icmp("eq", rs[0].t, rs[1].t)
 		}
+		it := "(= " + ints() + ")"
 		if op == "distinct" {
 			t = smt.Not(t)
+			it = "(not " + it + ")"
 		}
-		return vsVal{t, 0}, nil
+		return mkv(t, 0, it), nil
 	case "bvult", "bvule", "bvugt", "bvuge", "bvslt", "bvsle", "bvsgt", "bvsge":
 		if len(rs) != 2 || !sameBV() {
 			return vsVal{}, v.errf(x, "%s takes two bit-vectors of one width (widths %v)", op, widths(rs))
 		}
-		return vsVal{tm.icmp(op[2:], rs[0].t, rs[1].t), 0}, nil
+		if iop, ok := map[string]string{"bvult": "<", "bvule": "<=", "bvugt": ">", "bvuge": ">="}[op]; ok {
+			return mkv(tm.icmp(op[2:], rs[0].t, rs[1].t), 0, "("+iop+" "+ints()+")"), nil
+		}
+		return mkv(tm.icmp(op[2:], rs[0].t, rs[1].t), 0), nil
 	case "bvadd", "bvsub", "bvmul", "bvudiv", "bvurem", "bvand", "bvor", "bvxor", "bvshl", "bvlshr":
 		if len(rs) < 2 || !sameBV() {
 			return vsVal{}, v.errf(x, "%s takes bit-vectors of one width (widths %v)", op, widths(rs))
+		}
+		// mathematical reading with the side condition of each binary step
+		iv := ""
+		if iop, ok := map[string]string{"bvadd": "+", "bvsub": "-", "bvmul": "*", "bvudiv": "div", "bvurem": "mod"}[op]; ok {
+			iv = rs[0].i
+			for _, r := range rs[1:] {
+				nv := "(" + iop + " " + iv + " " + r.i + ")"
+				switch op {
+				case "bvadd", "bvmul":
+					v.side("(< "+nv+" "+pow2(rs[0].w)+")", fmt.Sprintf("%s at line %d fits %d bits", op, x.line, rs[0].w))
+				case "bvsub":
+					v.side("(>= "+iv+" "+r.i+")", fmt.Sprintf("bvsub at line %d does not borrow", x.line))
+				case "bvudiv", "bvurem":
+					v.side("(> "+r.i+" 0)", fmt.Sprintf("%s at line %d: divisor not 0", op, x.line))
+				}
+				iv = nv
+			}
 		}
 		if rs[0].w > 64 {
 			// wide arithmetic (reference values): no constant folding
@@ -680,19 +825,19 @@ func (v *vsEnv) eval(x *sx) (vsVal, error) {
 			for _, r := range rs[1:] {
 				t = smt.App(t.Sort, op, t, r.t)
 			}
-			return vsVal{t, rs[0].w}, nil
+			return mkv(t, rs[0].w, iv), nil
 		}
 		irOp := map[string]string{"bvadd": "add", "bvsub": "sub", "bvmul": "mul", "bvudiv": "udiv", "bvurem": "urem", "bvand": "and", "bvor": "or", "bvxor": "xor", "bvshl": "shl", "bvlshr": "lshr"}[op]
 		t := rs[0].t
 		for _, r := range rs[1:] {
 			t = tm.binop(irOp, t, r.t)
 		}
-		return vsVal{t, rs[0].w}, nil
+		return mkv(t, rs[0].w, iv), nil
 	case "bvnot":
 		if len(rs) != 1 || rs[0].w == 0 {
 			return vsVal{}, v.errf(x, "bvnot takes one bit-vector")
 		}
-		return vsVal{smt.App(rs[0].t.Sort, "bvnot", rs[0].t), rs[0].w}, nil
+		return mkv(smt.App(rs[0].t.Sort, "bvnot", rs[0].t), rs[0].w), nil
 	}
 	return vsVal{}, v.errf(x, "unknown operator %q", op)
 }
@@ -720,11 +865,14 @@ func (e *executor) loadFuncSpec(path string, extra map[string]vsVal, hook *hookC
 	if err != nil {
 		return nil, fmt.Errorf("%s: %v", path, err)
 	}
-	env := &vsEnv{e: e, vars: map[string]vsVal{}, file: path, hook: hook}
+	env := &vsEnv{e: e, vars: map[string]vsVal{}, file: path, hook: hook, leafOf: map[string]string{}}
 	for k, v := range extra {
 		env.vars[k] = v
 	}
 	fs := &FuncSpec{File: path, Scope: smt.True}
+	scopeInt := "true"
+	var mathGoals [][2]string
+	var mathDefs [][3]string
 	for _, f := range forms {
 		if !f.isL || len(f.list) == 0 || f.list[0].isL {
 			return nil, env.errf(f, "top-level form expected")
@@ -741,6 +889,14 @@ func (e *executor) loadFuncSpec(path string, extra map[string]vsVal, hook *hookC
 			name := f.list[1].atom
 			r.t = e.tm.named("spec_"+name, r.t)
 			env.vars[name] = r
+			isort := "Int"
+			if r.w == 0 {
+				isort = "Bool"
+			}
+			dn := "d_" + smt.Sanitize(name)
+			mathDefs = append(mathDefs, [3]string{dn, isort, r.i})
+			r.i = dn
+			env.vars[name] = r
 			fs.Defines = append(fs.Defines, NamedTerm{name, r.t, r.w})
 		case "scope":
 			r, err := env.eval(f.list[1])
@@ -751,6 +907,7 @@ func (e *executor) loadFuncSpec(path string, extra map[string]vsVal, hook *hookC
 				return nil, env.errf(f, "scope must be Bool")
 			}
 			fs.Scope = e.tm.named("spec_scope", r.t)
+			scopeInt = r.i
 		case "verdict":
 			r, err := env.eval(f.list[1])
 			if err != nil {
@@ -772,11 +929,25 @@ func (e *executor) loadFuncSpec(path string, extra map[string]vsVal, hook *hookC
 				return nil, env.errf(f, "case must be Bool")
 			}
 			fs.Cases = append(fs.Cases, NamedTerm{f.list[1].atom, e.tm.named("spec_case_"+f.list[1].atom, r.t), 0})
+		case "math":
+			if len(f.list) != 3 || f.list[1].isL {
+				return nil, env.errf(f, "(math NAME expr)")
+			}
+			r, err := env.eval(f.list[2])
+			if err != nil {
+				return nil, err
+			}
+			if r.w != 0 {
+				return nil, env.errf(f, "math lemma must be Bool")
+			}
+			mathGoals = append(mathGoals, [2]string{f.list[1].atom, r.i})
 		case "contract":
 			if len(f.list) != 3 || f.list[1].isL {
 				return nil, env.errf(f, "(contract NAME expr)")
 			}
+			nsides := len(env.sides)
 			r, err := env.eval(f.list[2])
+			env.sides = env.sides[:nsides] // contracts are claims in the (wrapping) bit-vector reading only
 			if err != nil {
 				return nil, err
 			}
@@ -788,5 +959,53 @@ func (e *executor) loadFuncSpec(path string, extra map[string]vsVal, hook *hookC
 			return nil, env.errf(f, "unknown form %q", f.list[0].atom)
 		}
 	}
+	if len(mathGoals) > 0 {
+		// common prefix: integer inputs with their ranges, the scope
+		var pre strings.Builder
+		pre.WriteString("(set-logic ALL)\n")
+		for _, l := range env.leaves {
+			if l.w == 0 {
+				fmt.Fprintf(&pre, "(declare-fun %s () Bool) ; %s\n", l.name, oneLine(l.bv))
+			} else {
+				fmt.Fprintf(&pre, "(declare-fun %s () Int) ; %d-bit value %s\n(assert (and (>= %s 0) (< %s %s)))\n", l.name, l.w, oneLine(l.bv), l.name, l.name, pow2(l.w))
+			}
+		}
+		for _, d := range mathDefs {
+			fmt.Fprintf(&pre, "(define-fun %s () %s %s)\n", d[0], d[1], d[2])
+		}
+		fmt.Fprintf(&pre, "(assert %s) ; scope\n", scopeInt)
+		// 1. the arithmetic of the definitions is exact: every +,*,-,div of the
+		// bit-vector reading agrees with the integer reading (proved in order,
+		// each assuming the earlier ones)
+		var names []string
+		for _, l := range env.leaves {
+			names = append(names, l.name)
+		}
+		for _, d := range mathDefs {
+			names = append(names, d[0])
+		}
+		getv := ""
+		if len(names) > 0 {
+			getv = "(get-value (" + strings.Join(names, " ") + "))\n"
+		}
+		var assumed strings.Builder
+		for k, sd := range env.sides {
+			q := pre.String() + assumed.String() + fmt.Sprintf("(assert (not (=> %s %s))) ; %s\n(check-sat)\n", sd.guard, sd.cond, sd.what) + getv
+			fs.Math = append(fs.Math, MathLemma{fmt.Sprintf("exact#%d:%s", k, strings.ReplaceAll(sd.what, " ", "_")), q})
+			fmt.Fprintf(&assumed, "(assert (=> %s %s))\n", sd.guard, sd.cond)
+		}
+		// 2. the lemmas, given exact arithmetic
+		for _, g := range mathGoals {
+			q := pre.String() + assumed.String() + fmt.Sprintf("(assert (not %s)) ; %s\n(check-sat)\n", g[1], g[0]) + getv
+			fs.Math = append(fs.Math, MathLemma{g[0], q})
+		}
+	}
 	return fs, nil
+}
+
+func oneLine(s string) string {
+	if len(s) > 80 {
+		s = s[:80] + "..."
+	}
+	return strings.ReplaceAll(s, "\n", " ")
 }
